@@ -29,6 +29,8 @@ _GRID = "deepali/core/grid.py"
 _IMG = "deepali/core/image.py"
 _LF = "deepali/losses/functional.py"
 _FL = "deepali/core/flow.py"
+_AFF = "deepali/core/affine.py"
+_RN_EUL = {f"{t}[..., {k}]": f"{t}{k}" for t in "cs" for k in range(3)}
 _RN_GRID = {"self._size": "n", "num_[::2]": "lo", "num_[1::2]": "hi"}
 _RN_ROI_G = {"start[i]": "start", "size[i]": "size", "grid_size[i]": "m"}
 _RN_ROI_T = {"start[i]": "start", "size[i]": "size", "data.shape[data.ndim - 1 - i]": "m"}
@@ -99,6 +101,19 @@ REGISTRY: Dict[str, List[Tuple[Frag, str]]] = {
         (Frag("tensor_roi_hi", _IMG, "region_of_interest", "assign", {"start": "int", "size": "int", "m": "int"}, target="num", occ=(1, 1), elt=1, rename=_RN_ROI_T), "int"),
     ],
     "C08": [
+    ] + [
+        # euler_rotation_matrix: D = 2 entries, the five hard-coded 3-D orders, the three elementary rotations of the fallback
+        (Frag(f"euler2_{i}{j}", _AFF, "euler_rotation_matrix", "assign", {"c0": "real", "s0": "real"}, target=f"matrix[..., {i}, {j}]",
+              occ=(0, 0), rename=_RN_EUL), "real") for i in (0, 1) for j in (0, 1)
+    ] + [
+        (Frag(f"euler{o}_{i}{j}", _AFF, "euler_rotation_matrix", "assign", {k: "real" for k in ("c0", "c1", "c2", "s0", "s1", "s2")},
+              target=f"matrix[..., {i}, {j}]", occ=(k + (1 if i < 2 and j < 2 else 0),) * 2, rename=_RN_EUL), "real")
+        for k, o in enumerate(("XYZ", "ZYX", "ZXY", "XZX", "ZXZ")) for i in range(3) for j in range(3)
+    ] + [
+        (Frag(f"rot{ax}_{i}{j}", _AFF, "euler_rotation_matrix", "assign", {"c": "real", "s": "real"}, target=f"rot[..., {i}, {j}]",
+              occ=(k, k), rename={"c[..., i]": "c", "s[..., i]": "s"}), "real")
+        for k, ax in enumerate("XYZ") for i in range(3) for j in range(3)
+    ] + [
         (Frag("quat_matrix", "deepali/core/_kornia.py", "quaternion_to_rotation_matrix", "lets",
               {"w": "real", "x": "real", "y": "real", "z": "real"},
               lets=("tx", "ty", "tz", "twx", "twy", "twz", "txx", "txy", "txz", "tyy", "tyz", "tzz", "one"), result="matrix"), "real"),
